@@ -426,7 +426,14 @@ def correspond(ctx, name, pairs, expect=None):
         for n, m in enumerate(mops[:cut]):
             if m is None:
                 break
-            items.append(f"({m}, {cobs(res['steps'][n + 1], cid)})")
+            b4, af = res["steps"][n], res["steps"][n + 1]
+            if af["out"] not in OUT_CODE and all(b4[k] == af[k] for k in ("files", "recs", "live", "trash")):
+                # refused by the REGISTRY before the datastore was reached (e.g. the run has been removed): outside the
+                # model; what is checked is that nothing changed
+                ctx.hist("compared", "registry-refused-noop:" + af["out"])
+                items.append(f"(Trash [], {cobs(dict(af, out='ok'), cid)})")
+                continue
+            items.append(f"({m}, {cobs(af, cid)})")
         if cut < len(h["ops"]):
             ctx.hist("compared", "truncated-at-outside-put")
         cases.append(f"({init}, {clist(items)})")
